@@ -15,6 +15,21 @@ fn main() {
         let out2 = ROUTER.route_ipc_receiver_to_new_crossbeam_receiver(rx2);
         let r = tx2.send(7);
         println!("second route send: {:?}; recv: {:?}", r.is_ok(), out2.recv_timeout(Duration::from_secs(1)));
+    } else if which == "hang" {
+        // C09: the receiver goes away while a multi-packet send is in progress: send must fail, not block forever
+        let (tx, rx) = ipc::bytes_channel().unwrap();
+        let (done_tx, done_rx) = std::sync::mpsc::channel();
+        std::thread::spawn(move || {
+            let big = vec![0x5au8; 64 << 20];
+            let r = tx.send(&big);
+            let _ = done_tx.send(r.is_ok());
+        });
+        std::thread::sleep(Duration::from_millis(500)); // the sender is now blocked in a follow-up send
+        drop(rx);
+        match done_rx.recv_timeout(Duration::from_secs(5)) {
+            Ok(ok) => println!("send returned; success = {}", ok),
+            Err(_) => println!("send is STILL BLOCKED 5 s after the receiver was dropped"),
+        }
     } else if which == "crash" {
         // C12 CLOSED-ORIGIN: a sender process dies in the middle of a multi-fragment message while
         // another sender handle (ours) survives; the receiver must not be told "disconnected".
